@@ -39,6 +39,7 @@ def parseKind (ws : List String) : Option Kind :=
   | ["r", "value", v] => v.toNat?.map (fun v => Kind.res (RK.value v))
   | ["r", "exc", c] => c.toNat?.map (fun c => Kind.res (RK.exc c))
   | ["r", "drop"] => some (Kind.res RK.drop)
+  | ["r", "throwv"] => some (Kind.res RK.drop)   -- value construction throws after the claim: the future is resolved without a value
   | ["d"] => some Kind.dtor
   | ["w", "coro"] => some (Kind.wait WK.coro)
   | ["w", "sync"] => some (Kind.wait WK.sync)
@@ -80,7 +81,14 @@ def runCase (hdr : List String) (body : List (List String)) : List String := Id.
   let cfg : Cfg := { n := n, kind := fun i => if i = n then Kind.dtor else karr[i]?.getD Kind.dtor }
   let s0 := init { cfg with n := n + 1 }
   let s0 := if hasD then setPc s0 n Pc.done else s0
-  let (s1, out, dead) := runSched cfg isVoid s0 sched #[] 100000
+  let throwers := (body.filter (fun w => w.head? == some "r" || w.head? == some "w" || w.head? == some "d")).zipIdx.filterMap
+    (fun (w, i) => if w == ["r", "throwv"] then some i else none)
+  let fixRet (l : String) : String :=
+    match words l with
+    | ["ret", t, "1"] => if throwers.any (fun i => t == s!"t{i}") then s!"ret {t} threw" else l
+    | _ => l
+  let (s1, out0, dead) := runSched cfg isVoid s0 sched #[] 100000
+  let out := out0.map fixRet
   if dead then return (out.toList ++ ["deadlock", "end"])
   -- controller destroys the promise (silent: not a scheduled thread)
   let cfg' := { cfg with n := n + 1 }
